@@ -33,6 +33,8 @@ REACH_MIN = {"responses_compared": {"quick": 1500, "thorough": 21093},
              "readdressed_dials": {"quick": 10, "thorough": 140},
              "invalidations_checked": {"quick": 150, "thorough": 2109},
              "group_invalidations_checked": {"quick": 25, "thorough": 600},
+             "group_refresh_without_coordinator": {"quick": 15, "thorough": 400},
+             "group_coordinator_readdressed": {"quick": 15, "thorough": 400},
              "recover_sends_after_faults": {"quick": 150, "thorough": 2109},
              "recover_faults": {"quick": 100, "thorough": 1406}}
 
@@ -48,7 +50,7 @@ def cases(tier, seed):
         out.append(dict(kind="invalidate", seed=seed * 1000003 + 830000 + i, idx=i))
     for i in range(n[2]):
         out.append(dict(kind="recover", seed=seed * 1000003 + 860000 + i))
-    for i in range({"quick": 60, "thorough": 1500}[tier]):
+    for i in range({"quick": 128, "thorough": 3200}[tier]):
         out.append(dict(kind="invalidate_group", seed=seed * 1000003 + 890000 + i, idx=i))
     return out
 
@@ -610,6 +612,62 @@ def run_invalidate_group(spec, res):
         w.run(until=w.clock.seconds() + 2.0, stop=lambda: bool(out0))
         if not out0 or hasattr(out0[0], "check"):
             res.inconclusive.append("the healthy first exchange with the coordinator failed")
+            return
+        variant = ("plain", "plain", "refresh_without_coordinator", "coordinator_readdressed")[(i // 16) % 4]
+        if variant == "refresh_without_coordinator":
+            # a full refresh whose answer does not list the coordinator's broker (it is restarting): its client is
+            # closed, but the next group request must still get to the coordinator the client knows
+            res.hit("group_refresh_without_coordinator")
+            cl.metadata_override = lambda ev: ([b for b in cl.metadata_view(())[0] if b[0] != coord],
+                                               cl.metadata_view(ev["req"]["topics"])[1])
+            eat(client.load_metadata_for_topics())
+            w.run(until=w.clock.seconds() + 1.0)
+            cl.metadata_override = None
+            h = len(cl.history)
+            out = []
+            call(api2).addBoth(out.append)
+            w.run(until=w.clock.seconds() + 4.0, stop=lambda: bool(out))
+            reached = [e for e in cl.history[h:] if "req" in e and e["api"] == wire[api2] and e["broker"] == coord]
+            if not out or hasattr(out[0], "check") or not reached:
+                res.violate("coordinator/group-request-did-not-reach-the-coordinator-after-a-refresh-omitting-it",
+                            "the group's coordinator (node %d) was left out of a full metadata refresh; the next %s "
+                            "request for the group %s" % (coord, api2, "never completed" if not out else
+                                                          "ended as %r" % (out[0],)), reached=len(reached))
+            res.ob("group_request_reaches_coordinator_after_refresh")
+            eat(client.close())
+            w.run(until=w.clock.seconds() + 1.0)
+            res.n_sub += 1
+            return
+        if variant == "coordinator_readdressed":
+            # the coordinator's broker comes back at another address; the first answer to say so is a coordinator
+            # lookup.  The group request after that lookup has to be dialled to the address the lookup gave.
+            res.hit("group_coordinator_readdressed")
+            old = (cl.brokers[coord].host, cl.brokers[coord].port)
+            cl.readdress(coord, "moved%d.sim" % coord, 7100 + coord)
+            out = []
+            call(api1).addBoth(out.append)  # meets the dead address: fails, the cached routing goes
+            w.run(until=w.clock.seconds() + 4.0, stop=lambda: bool(out))
+            w.run(until=w.clock.seconds() + 0.3)
+            h = len(cl.history)
+            a0 = len(w.net.attempts)
+            out2 = []
+            call(api2).addBoth(out2.append)
+            w.run(until=w.clock.seconds() + 6.0, stop=lambda: bool(out2))
+            looked = [e for e in cl.history[h:] if "req" in e and e["api"] == "FindCoordinator" and e["replied"] == "sent"]
+            # (the answer reaches the client up to one network latency after the broker sent it)
+            stale = [a for a in w.net.attempts[a0:] if (a.host, a.port) == old and looked and
+                     a.t > looked[-1]["reply_t"] + 0.03]
+            ok2 = bool(out2) and not hasattr(out2[0], "check")
+            if looked and (stale or not ok2):
+                res.violate("address/coordinator-lookup-address-not-applied", "a coordinator lookup named node %d at "
+                            "%s:%d; afterwards %s" % (coord, cl.brokers[coord].host, cl.brokers[coord].port,
+                                                      ("the superseded address %s:%d was dialled %d time(s)" % (
+                                                          old[0], old[1], len(stale))) if stale else
+                                                      "the group request ended as %r" % (out2[0] if out2 else None,)))
+            res.ob("coordinator_address_from_lookup_applied")
+            eat(client.close())
+            w.run(until=w.clock.seconds() + 1.0)
+            res.n_sub += 1
             return
         if fault == "silent":
             cl.faults.add(dict(api=wire[api1], broker=coord, nth=[0], action=dict(kind="silent", apply=False)))
